@@ -40,3 +40,16 @@ func VerifAllBarriers(c *Core) []barrier.SecurityBarrier {
 	})
 	return out
 }
+
+// VerifTrackedLeases returns the lease ids the expiration manager tracks
+// (pending timers, non-expiring, irrevocable) and whether it is still restoring.
+func VerifTrackedLeases(c *Core) (pending, nonexpiring, irrevocable []string, restoring bool) {
+	m := c.expiration
+	if m == nil {
+		return nil, nil, nil, false
+	}
+	m.pending.Range(func(k, _ any) bool { pending = append(pending, k.(string)); return true })
+	m.nonexpiring.Range(func(k, _ any) bool { nonexpiring = append(nonexpiring, k.(string)); return true })
+	m.irrevocable.Range(func(k, _ any) bool { irrevocable = append(irrevocable, k.(string)); return true })
+	return pending, nonexpiring, irrevocable, m.inRestoreMode()
+}
